@@ -54,7 +54,7 @@ CHECK_DEADLOCK FALSE
 # (root, alphabet, maxlen)
 SEM_TIERS = {
     "quick": [dict(root="R", alphabet="aFull", maxlen=2, pims="cPimsR"),
-              dict(root="R", alphabet="aSmall", maxlen=3, pims="cPimsR"),
+              dict(root="R", alphabet="aTiny", maxlen=3, pims="cPimsR"),
               dict(root="N", alphabet="aNeg", maxlen=2, pims="cPimsN")],
     "thorough": [dict(root="R", alphabet="aFull", maxlen=2, pims="cPimsR"),
                  dict(root="R", alphabet="aValid", maxlen=3, pims="cPimsR"),
